@@ -280,7 +280,7 @@ def pfi_independent(dynamic, alpha, offset, n_obs):
             x = {'a': a, 'b': b, 'c': c}
             y = off + 2.0 * a - b
             mark = log.mark()
-            vals = ex.explain_one(dict(x), y)
+            vals = ex.explain_one(dict(x), y, **({'n_inner_samples': 3} if t % 3 == 2 else {}))
             if t == 0:
                 continue
             xe = {k: F(v) for k, v in x.items()}
